@@ -388,7 +388,11 @@ func (s *CDX) nodeToComponent(n *sbom.Node) *cdx.Component {
 			case int32(sbom.SoftwareIdentifierType_PURL):
 				c.PackageURL = n.Identifiers[idType]
 			case int32(sbom.SoftwareIdentifierType_CPE23):
-				c.CPE = n.Identifiers[idType]
+				// An empty CPE 2.3 must not clear a CPE 2.2 that the map
+				// iteration happened to yield first
+				if n.Identifiers[idType] != "" {
+					c.CPE = n.Identifiers[idType]
+				}
 			case int32(sbom.SoftwareIdentifierType_CPE22):
 				// TODO(degradation): Only one CPE is supported in CDX
 				if c.CPE == "" {
